@@ -103,6 +103,9 @@ Proof.
     + rewrite forallb_forall in *. intros t Ht. eapply in_scope_mono; eauto.
     + rewrite forallb_forall in *. intros t Ht. eapply in_scope_mono; [|apply H2; exact Ht].
       apply Happ, Happ, Hi.
+  - intros x tn es S S' Hi H. cbn in *. rewrite forallb_forall in *. intros e He. eapply in_scope_mono; eauto.
+  - intros x S S' Hi H. discriminate H.
+  - intros x e S S' Hi H. discriminate H.
   - reflexivity.
   - intros s r Hs Hr S S' Hi H. cbn in *. apply andb_prop in H. destruct H as [A B].
     rewrite (Hs _ _ Hi A). cbn. eapply Hr; [|exact B]. apply Happ, Hi.
@@ -135,6 +138,7 @@ Section Full.
   Variables (w : world) (fuel : nat) (g : ver).
   Hypothesis Hg1 : v_guard g = true.
   Hypothesis Hg2 : v_optinit g = true.
+  Hypothesis Hg3 : v_forward g = false.
   Notation exec_o := (exec Add w fuel).
   Notation exec_block_o := (exec_block Add w fuel).
   Notation exec_t := (exec Add w fuel).
@@ -298,7 +302,12 @@ Section Full.
     ccp_stmt g (S n) (SPrim x p e) c = Some (out, c', brk, f) -> scoped S0 (SPrim x p e) = true ->
     good [x] [x] (exec_o (SPrim x p e)) S0 c out c' brk.
   Proof.
-    cbn [ccp_stmt scoped]. intros H Hsc. injection H as <- <- <- <-.
+    cbn [ccp_stmt scoped]. intros H Hsc.
+    assert (Hnf : match p, opt_expr (cx_v c) e with
+                  | PIdx _ i, EVar y => if v_forward g then assoc_i y i (cx_i c) else None
+                  | _, _ => None
+                  end = None) by (rewrite Hg3; destruct p; try reflexivity; destruct (opt_expr (cx_v c) e); reflexivity).
+    rewrite Hnf in H. injection H as <- <- <- <-.
     eapply kept_good; [reflexivity | reflexivity | | left; reflexivity | |].
     - intros T HT. cbn. eapply tscope_expr; eauto.
     - intros op y k T _ E. exfalso. symmetry in E. eapply bind_b_neq; eauto.
@@ -317,6 +326,25 @@ Section Full.
       intros T HT HTD. split; [|discriminate]. cbn. rewrite (tscope_expr c S0 T e HT Hsc). reflexivity.
     - intros S J eo et tr Hi1 Hi2 HiJ HR. cbn. eexists.
       rewrite (R2_expr w c S J eo et e HR (in_scope_In _ _ _ Hsc Hi1)). reflexivity.
+  Qed.
+
+  (* a new struct: the statement is kept; the fields are recorded in a part of the context (cx_i) that only the
+     forwarding of struct fields reads, which is switched off here (Hg3) *)
+  Lemma P_SStruct n x tn es c out c' brk f S0 :
+    ccp_stmt g (S n) (SStruct x tn es) c = Some (out, c', brk, f) -> scoped S0 (SStruct x tn es) = true ->
+    good [x] [x] (exec_o (SStruct x tn es)) S0 c out c' brk.
+  Proof.
+    cbn [ccp_stmt scoped]. intros H Hsc. injection H as <- <- <- <-.
+    change (good [x] [x] (exec_o (SStruct x tn es)) S0 c [SStruct x tn (map (opt_expr (cx_v c)) es)] c false).
+    eapply kept_good; [reflexivity | reflexivity | | left; reflexivity | |].
+    - intros T HT. cbn. eapply tscope_exprs; eauto.
+    - intros op y k T _ E. exfalso. symmetry in E. eapply bind_b_neq; eauto.
+    - intros D S J eo et tr Hwf Hi1 Hi2 HR. cbn. eexists. split; [reflexivity|].
+      assert (Hes : map (eval w et) (map (opt_expr (cx_v c)) es) = map (eval w eo) es).
+      { rewrite map_map. apply map_ext_in. intros a Ha. symmetry. apply (R2_expr w c S J eo et a HR).
+        rewrite forallb_forall in Hsc. apply (in_scope_In _ _ _ (Hsc a Ha) Hi1). }
+      rewrite Hes. split; [reflexivity|].
+      intros op y k E. exfalso. symmetry in E. eapply bind_b_neq; eauto.
   Qed.
 
   Lemma P_SCall n fn args ret c out c' brk f S0 :
@@ -937,7 +965,7 @@ Section Full.
     destruct st; cbn [ccp_stmt] in H; fold (ccp_stmts g n) in H.
     - exfalso. exact (ccp_bin_brk _ _ _ _ _ _ _ _ H).
     - destruct (lit _); [destruct (bind _ _ _)|]; try discriminate; injection H; discriminate.
-    - injection H; discriminate.
+    - match type of H with (match ?m with _ => _ end) = _ => destruct m as [cp|]; [destruct (bind _ _ _); [|discriminate]|] end; injection H; discriminate.
     - injection H; discriminate.
     - destruct (lit (opt_expr (cx_v c) c0)) as [v|].
       + destruct (ccp_stmts g n _ c) as [[[[o1 c1] b1] f1]|] eqn:E1; [|discriminate]. destruct b1.
@@ -999,6 +1027,9 @@ Section Full.
         destruct bc as [bn|]; [destruct (bind bn _ c3); [|discriminate]|]; injection H; discriminate.
       + destruct (try_loop g (ccp_stmts g n) 5 _ body bc c1) as [[[[o c2] b2] f2]|] eqn:Et; [|discriminate].
         injection H as <- <- -> <-. pose proof (try_loop_brk _ _ _ _ _ _ _ _ _ _ Et). discriminate.
+    - injection H; discriminate.
+    - injection H; discriminate.
+    - injection H; discriminate.
   Qed.
 
   Lemma ccps_brk_ends n ss c out c' f : ccp_stmts g n ss c = Some (out, c', true, f) -> ends_break out = true.
@@ -1420,7 +1451,7 @@ Section Full.
     destruct st; cbn [ccp_stmt] in H; fold (ccp_stmts g n) in H.
     - exact (ccp_bin_brk _ _ _ _ _ _ _ _ H).
     - destruct (lit _); [destruct (bind _ _ _)|]; try discriminate; injection H; discriminate.
-    - injection H; discriminate.
+    - match type of H with (match ?m with _ => _ end) = _ => destruct m as [cp|]; [destruct (bind _ _ _); [|discriminate]|] end; injection H; discriminate.
     - injection H; discriminate.
     - change (no_break (SIf c0 s1 s2 fas)) with (no_break_l s1 && no_break_l s2) in Hnb.
       apply andb_prop in Hnb. destruct Hnb as [Hn1 Hn2].
@@ -1467,6 +1498,9 @@ Section Full.
         destruct bc as [bn|]; [destruct (bind bn _ c3); [|discriminate]|]; injection H; discriminate.
       + destruct (try_loop g (ccp_stmts g n) 5 _ body bc c1) as [[[[o c2] b2] f2]|] eqn:Et; [|discriminate].
         injection H as <- <- -> <-. pose proof (try_loop_brk _ _ _ _ _ _ _ _ _ _ Et). discriminate.
+    - injection H; discriminate.
+    - injection H; discriminate.
+    - injection H; discriminate.
   Qed.
 
   Lemma ccps_nobreak n ss c out c' b f : no_break_l ss = true -> ccp_stmts g n ss c = Some (out, c', b, f) -> b = false.
@@ -2373,7 +2407,7 @@ Section Full.
   (* ---------------------------------------------------------------- all statements *)
   Lemma P_step n : Qn n -> Pn (S n).
   Proof.
-    intros HQ st c out c' brk f S0 H Hf Hsc. destruct st as [x op e1 e2|x e|x p e|fn args ret|cnd s1 s2 fas|cnd inv ss|e|lvs ss bc].
+    intros HQ st c out c' brk f S0 H Hf Hsc. destruct st as [x op e1 e2|x e|x p e|fn args ret|cnd s1 s2 fas|cnd inv ss|e|lvs ss bc|x tn es|x|x e].
     - exact (P_SBin n x op e1 e2 c out c' brk f S0 H Hsc).
     - exact (P_SNot n x e c out c' brk f S0 H Hsc).
     - exact (P_SPrim n x p e c out c' brk f S0 H Hsc).
@@ -2419,6 +2453,9 @@ Section Full.
     - exact (P_SSIf n cnd inv ss c out c' brk f S0 HQ H Hf Hsc).
     - exact (P_SBreak n e c out c' brk f S0 H Hsc).
     - exact (P_SWhile n lvs ss bc c out c' brk f S0 HQ H Hf Hsc).
+    - exact (P_SStruct n x tn es c out c' brk f S0 H Hsc).
+    - discriminate Hsc.
+    - discriminate Hsc.
   Qed.
 
   Theorem ccp_all n : Pn n /\ Qn n.
@@ -2433,15 +2470,15 @@ End Full.
    + and - is reproduced by the output, which does not overflow there either; the output is again well scoped
    with pairwise distinct binders, so the next round can rely on the same theorem.  `fst fl = false` excludes
    only the two situations in which the pass leaves a dangling operand in dead code (see Passes.fl). *)
-Theorem ccp_preserves_add w f f' fl :
-  wf_func f = true -> ccp f = Some (f', fl) -> fst fl = false -> refines_add w f' f.
+Theorem ccp_nf_preserves_add w f f' fl :
+  wf_func f = true -> ccp_nf f = Some (f', fl) -> fst fl = false -> refines_add w f' f.
 Proof.
-  unfold wf_func, ccp, ccp_gen. intros Hwf H Hfl. apply andb_prop in Hwf. destruct Hwf as [Hwf Hret].
+  unfold wf_func, ccp_nf, ccp_gen. intros Hwf H Hfl. apply andb_prop in Hwf. destruct Hwf as [Hwf Hret].
   apply andb_prop in Hwf. destruct Hwf as [Hnd Hsc]. apply nodupb_NoDup in Hnd.
-  destruct (ccp_stmts ver_now ccp_fuel (f_body f) cx0) as [[[[out c] b] f1]|] eqn:E; [|discriminate].
+  destruct (ccp_stmts ver_nf ccp_fuel (f_body f) cx0) as [[[[out c] b] f1]|] eqn:E; [|discriminate].
   injection H as <- <-.
   intros args fuel v tr Hsem.
-  destruct (ccp_all w fuel ver_now eq_refl eq_refl ccp_fuel) as [_ HQ].
+  destruct (ccp_all w fuel ver_nf eq_refl eq_refl eq_refl ccp_fuel) as [_ HQ].
   specialize (HQ (f_body f) cx0 out c b f1 (f_params f) E Hfl Hsc (f_params f) (cx_wf2_init _) (incl'_refl _)).
   destruct HQ as [_ Hd].
   - eapply NoDup_app_r'; eauto.
@@ -2456,19 +2493,29 @@ Proof.
     intros x Ex'. apply Lo. apply in_scope_var. rewrite <- Ex'. exact Hret.
 Qed.
 
-Corollary ccp_preserves w f f' fl :
-  wf_func f = true -> ccp f = Some (f', fl) -> fst fl = false -> refines w f' f.
-Proof. intros H1 H2 H3. apply refines_add_refines. exact (ccp_preserves_add w f f' fl H1 H2 H3). Qed.
+Corollary ccp_nf_preserves w f f' fl :
+  wf_func f = true -> ccp_nf f = Some (f', fl) -> fst fl = false -> refines w f' f.
+Proof. intros H1 H2 H3. apply refines_add_refines. exact (ccp_nf_preserves_add w f f' fl H1 H2 H3). Qed.
+
+(* the pass itself: the same whenever forwarding of struct fields does not change its result on f *)
+Lemma nf_eq f r : no_struct_forwarding f -> ccp f = r -> ccp_nf f = r.
+Proof. unfold no_struct_forwarding. intros -> H. exact H. Qed.
+Theorem ccp_preserves_add w f f' fl :
+  wf_func f = true -> no_struct_forwarding f -> ccp f = Some (f', fl) -> fst fl = false -> refines_add w f' f.
+Proof. intros H1 Hn H2 H3. exact (ccp_nf_preserves_add w f f' fl H1 (nf_eq f _ Hn H2) H3). Qed.
+Theorem ccp_preserves w f f' fl :
+  wf_func f = true -> no_struct_forwarding f -> ccp f = Some (f', fl) -> fst fl = false -> refines w f' f.
+Proof. intros H1 Hn H2 H3. exact (ccp_nf_preserves w f f' fl H1 (nf_eq f _ Hn H2) H3). Qed.
 
 (* the same with the exclusion as a named decidable hypothesis on f (Passes.dead_final_operands) *)
 Lemma no_dead_flag f f' fl : no_dead_final_operands f -> ccp f = Some (f', fl) -> fst fl = false.
 Proof. unfold no_dead_final_operands, dead_final_operands. intros H E. rewrite E in H. exact H. Qed.
 Theorem ccp_preserves_add_named w f f' fl :
-  wf_func f = true -> no_dead_final_operands f -> ccp f = Some (f', fl) -> refines_add w f' f.
-Proof. intros H1 H2 H3. exact (ccp_preserves_add w f f' fl H1 H3 (no_dead_flag f f' fl H2 H3)). Qed.
+  wf_func f = true -> no_dead_final_operands f -> no_struct_forwarding f -> ccp f = Some (f', fl) -> refines_add w f' f.
+Proof. intros H1 H2 Hn H3. exact (ccp_preserves_add w f f' fl H1 Hn H3 (no_dead_flag f f' fl H2 H3)). Qed.
 Theorem ccp_preserves_named w f f' fl :
-  wf_func f = true -> no_dead_final_operands f -> ccp f = Some (f', fl) -> refines w f' f.
-Proof. intros H1 H2 H3. exact (ccp_preserves w f f' fl H1 H3 (no_dead_flag f f' fl H2 H3)). Qed.
+  wf_func f = true -> no_dead_final_operands f -> no_struct_forwarding f -> ccp f = Some (f', fl) -> refines w f' f.
+Proof. intros H1 H2 Hn H3. exact (ccp_preserves w f f' fl H1 Hn H3 (no_dead_flag f f' fl H2 H3)). Qed.
 
 Lemma NoDup_nodupb l : NoDup l -> nodupb l = true.
 Proof.
@@ -2477,14 +2524,14 @@ Proof.
 Qed.
 
 (* the output of the pass is well formed again (a function body has no Break outside of a loop) *)
-Theorem ccp_wf f f' fl :
-  wf_func f = true -> no_break_l (f_body f) = true -> ccp f = Some (f', fl) -> fst fl = false -> wf_func f' = true.
+Theorem ccp_nf_wf f f' fl :
+  wf_func f = true -> no_break_l (f_body f) = true -> ccp_nf f = Some (f', fl) -> fst fl = false -> wf_func f' = true.
 Proof.
-  unfold wf_func at 1, ccp, ccp_gen. intros Hwf Hnb H Hfl. apply andb_prop in Hwf. destruct Hwf as [Hwf Hret].
+  unfold wf_func at 1, ccp_nf, ccp_gen. intros Hwf Hnb H Hfl. apply andb_prop in Hwf. destruct Hwf as [Hwf Hret].
   apply andb_prop in Hwf. destruct Hwf as [Hnd Hsc]. apply nodupb_NoDup in Hnd.
-  destruct (ccp_stmts ver_now ccp_fuel (f_body f) cx0) as [[[[out c] b] f1]|] eqn:E; [|discriminate].
+  destruct (ccp_stmts ver_nf ccp_fuel (f_body f) cx0) as [[[[out c] b] f1]|] eqn:E; [|discriminate].
   injection H as <- <-.
-  destruct (ccp_all (mkworld (fun _ _ _ => None) (fun _ => 0%Z) (fun _ => 0%Z) (fun _ v => v)) 0 ver_now eq_refl eq_refl ccp_fuel) as [_ HQ].
+  destruct (ccp_all (mkworld (fun _ _ _ => None) (fun _ => 0%Z) (fun _ => 0%Z) (fun _ v => v) (fun _ _ => 0%Z)) 0 ver_nf eq_refl eq_refl eq_refl ccp_fuel) as [_ HQ].
   specialize (HQ (f_body f) cx0 out c b f1 (f_params f) E Hfl Hsc (f_params f) (cx_wf2_init _) (incl'_refl _)).
   destruct HQ as [(W & X & B & N & S5) _].
   - eapply NoDup_app_r'; eauto.
@@ -2495,23 +2542,28 @@ Proof.
     unfold wf_func. cbn [f_params f_body f_ret]. rewrite A1, andb_true_r. apply andb_true_intro. split.
     + apply NoDup_nodupb. apply NoDup_app_intro; [eapply NoDup_app_l'; eauto | exact N |].
       intros x Hp Hb. apply B in Hb. eapply (NoDup_app_disj' _ _ x Hnd); eauto.
-    + assert (b = false) as -> by (eapply (ccps_nobreak ver_now); eauto).
+    + assert (b = false) as -> by (eapply (ccps_nobreak ver_nf); eauto).
       specialize (A2 eq_refl). eapply tscope_expr; eauto.
 Qed.
 (* the pass makes no new names *)
-Lemma ccp_binders f f' fl : wf_func f = true -> ccp f = Some (f', fl) -> fst fl = false ->
+Lemma ccp_nf_binders f f' fl : wf_func f = true -> ccp_nf f = Some (f', fl) -> fst fl = false ->
   f_params f' = f_params f /\ incl' (binders_l (f_body f')) (binders_l (f_body f)).
 Proof.
-  unfold wf_func, ccp, ccp_gen. intros Hwf H Hfl. apply andb_prop in Hwf. destruct Hwf as [Hwf Hret].
+  unfold wf_func, ccp_nf, ccp_gen. intros Hwf H Hfl. apply andb_prop in Hwf. destruct Hwf as [Hwf Hret].
   apply andb_prop in Hwf. destruct Hwf as [Hnd Hsc]. apply nodupb_NoDup in Hnd.
-  destruct (ccp_stmts ver_now ccp_fuel (f_body f) cx0) as [[[[out c] b] f1]|] eqn:E; [|discriminate].
+  destruct (ccp_stmts ver_nf ccp_fuel (f_body f) cx0) as [[[[out c] b] f1]|] eqn:E; [|discriminate].
   injection H as <- <-. split; [reflexivity|]. cbn [f_body].
-  destruct (ccp_all (mkworld (fun _ _ _ => None) (fun _ => 0%Z) (fun _ => 0%Z) (fun _ v => v)) 0 ver_now eq_refl eq_refl ccp_fuel) as [_ HQ].
+  destruct (ccp_all (mkworld (fun _ _ _ => None) (fun _ => 0%Z) (fun _ => 0%Z) (fun _ v => v) (fun _ _ => 0%Z)) 0 ver_nf eq_refl eq_refl eq_refl ccp_fuel) as [_ HQ].
   specialize (HQ (f_body f) cx0 out c b f1 (f_params f) E Hfl Hsc (f_params f) (cx_wf2_init _) (incl'_refl _)).
   destruct HQ as [(_ & _ & B & _) _]; [eapply NoDup_app_r'; eauto | | exact B].
   intros x Hb Hp. eapply (NoDup_app_disj' _ _ x Hnd); eauto.
 Qed.
 
+Theorem ccp_wf f f' fl :
+  wf_func f = true -> no_break_l (f_body f) = true -> no_struct_forwarding f -> ccp f = Some (f', fl) -> fst fl = false ->
+  wf_func f' = true.
+Proof. intros H1 H2 Hn H3 H4. exact (ccp_nf_wf f f' fl H1 H2 (nf_eq f _ Hn H3) H4). Qed.
 Theorem ccp_wf_named f f' fl :
-  wf_func f = true -> no_break_l (f_body f) = true -> no_dead_final_operands f -> ccp f = Some (f', fl) -> wf_func f' = true.
-Proof. intros H1 H2 H3 H4. exact (ccp_wf f f' fl H1 H2 H4 (no_dead_flag f f' fl H3 H4)). Qed.
+  wf_func f = true -> no_break_l (f_body f) = true -> no_dead_final_operands f -> no_struct_forwarding f ->
+  ccp f = Some (f', fl) -> wf_func f' = true.
+Proof. intros H1 H2 H3 Hn H4. exact (ccp_wf f f' fl H1 H2 Hn H4 (no_dead_flag f f' fl H3 H4)). Qed.
